@@ -7,6 +7,10 @@ for d in sorted(glob.glob('/verif/seeded/*/')):
     caught = '; '.join(f"{k}: `{v}`" if not v.startswith('`') else f"{k}: {v}" for k, v in m['caught_by'].items())
     if m.get('missed_before'):
         caught = "**missed at first** (" + m['missed_before'] + "); now " + caught
+    if m.get('ported'):
+        caught += " - patch re-made against the current tree (original: patch.orig.diff)"
+    if m.get('obsolete'):
+        caught += " - OBSOLETE: " + m['obsolete']
     if m.get('harness_fix'):
         caught += " - harness corrected: " + m['harness_fix']
     rows.append(f"| {i} | {m['property']} | {m['summary']} | {m['needs']} | {caught} |")
